@@ -158,6 +158,11 @@ func (c *c02ctx) idempotentTx(label string, tx *types.Transaction) {
 		c.fail(panicClass("tx-decode", what), "%s: decoding a re-encoded transaction panicked: %s", label, what)
 		return
 	}
+	if (err != nil || describeTx(tx2) != describeTx(tx)) && txOffCurve(tx) {
+		c.run.Probe("off_curve_key_object_not_reencodable")
+		c.fail(offCurveKeyPrefix+"tx", "%s: decoder accepted a transaction carrying a public key that is not on its curve; its re-encoding (compressed key) is rejected: %v", label, err)
+		return
+	}
 	if err != nil || describeTx(tx2) != describeTx(tx) {
 		c.fail("tx-reencode-not-idempotent", "%s: decode(encode(x)) != x for an accepted transaction (err %v)", label, err)
 	}
@@ -198,6 +203,11 @@ func (c *c02ctx) decodeHdr(label string, data []byte, k int, salt uint64) {
 		var e3 error
 		if p, what := safely(func() { h3, e3 = types.HeaderFromRawBytes(copyB(b1)) }); p {
 			c.fail(panicClass("hdr-decode", what), "%s: decoding a re-encoded header panicked: %s", label, what)
+			return
+		}
+		if e3 != nil && hdrOffCurve(h) {
+			c.run.Probe("off_curve_key_object_not_reencodable")
+			c.fail(offCurveKeyPrefix+"header", "%s: decoder accepted a header carrying a bookkeeper key that is not on its curve; its re-encoding (compressed key) is rejected: %v", label, e3)
 			return
 		}
 		if e3 != nil || describeHdr(h3) != describeHdr(h) || h3.Hash() != h.Hash() {
